@@ -506,6 +506,14 @@ func (rp *ReverseProxy) ServeHTTP(rw http.ResponseWriter, outreq *http.Request, 
 		// Most of the time forceSetTrailers should be false.
 		forceSetTrailers := len(res.Trailer) != announcedTrailerKeyCount
 		shallowCopyTrailers(rw.Header(), res.Trailer, forceSetTrailers)
+		if forceSetTrailers {
+			// Trailers are only sent on a chunked response: flush before the
+			// handler returns so that net/http does not give a short body a
+			// Content-Length (and silently drop the unannounced trailers).
+			if fl, ok := rw.(http.Flusher); ok {
+				fl.Flush()
+			}
+		}
 	}
 
 	return nil
